@@ -164,3 +164,15 @@ Definition enc_out (o : out) : list Z :=
 Definition observable (o : out) : bool :=
   match o with WAck _ | WNak _ | WCancelNak _ | Up _ | ResetUp _ => true | _ => false end.
 Definition enc_outs (l : list out) : list Z := flat_map enc_out (filter observable l).
+
+(* ---- case decoding for the correspondence harness -------------------------------------------- *)
+Definition run_c04_case (c : N * list (list N * list N)) : list Z :=
+  enc_outs (snd (rx_frames (fst c) (map (fun x => mk_frame (fst x) (snd x)) (snd c)))).
+
+Definition run_c02_case (chunks : list (list N)) : list Z :=
+  let '(st, o) := feed rx_init chunks in
+  enc_outs o ++ [(-7)%Z; Z.of_nat (length (buf st)); (if discarding st then 1 else 0)%Z; Z.of_N (rxseq st)].
+
+(* the reference decoder on the whole stream, for the thorough-tier cross check *)
+Definition run_ref_case (stream : list N) : list Z :=
+  let '(st, o) := ref_run ref_init stream in enc_outs o.
